@@ -861,6 +861,16 @@ pub fn expand_env(sh: &Shell, tokens: &mut types::Tokens) {
         let mut _token = String::new();
         let mut rest = token.clone();
         while env_in_token(&rest) {
+            // the text of a command substitution is left alone: it is
+            // planned, and expanded, when it runs
+            if let Some((head, _, tail)) = split_first_substitution(&rest) {
+                if !env_in_token(&head) {
+                    let end = rest.len() - tail.len();
+                    _token.push_str(&rest[..end]);
+                    rest = tail;
+                    continue;
+                }
+            }
             let (done, tail) = expand_one_env(sh, &rest);
             _token.push_str(&done);
             rest = tail;
